@@ -661,6 +661,10 @@ func handleQueryCustom(app *BaseApp, path []string, req abci.RequestQuery) (res 
 	ctx := sdk.NewContext(
 		newMS, app.checkState.ctx.BlockHeader(), true, app.logger,
 	).WithBlockStore(app.checkState.ctx.BlockStore()).WithAppVersion(app.appVersion)
+	// The store behind this context is a lazily loaded (usually historical) version. Flag the context
+	// accordingly so that the keepers' node-local object caches, which block execution consults, are
+	// neither read nor filled with objects of another height.
+	ctx = ctx.SetPrevCtx(true)
 
 	// Passes the rest of the path as an argument to the querier.
 	//
